@@ -104,6 +104,8 @@ def _exec(sim, op):
                     raw=op["raw"].encode("latin1") if "raw" in op else None)
         if op.get("drain", True):
             sim.drain()
+    elif o == "sockev":
+        sim.socket_event(bool(op.get("ready", True)))
     elif o == "reloadcfg":
         # the configuration file is rewritten, then the real `reloadconfig` request
         sim.write_file(op["watchers"])
